@@ -733,6 +733,31 @@ def add_speeds(ctx, prop='C02', direction='le'):
                 ctx.check(ok, R, 'offset_base|' + caller_fid, 'the base offset is the start offset of the link whose restrictions are added (a link point\'s offset)',
                           'offset_base = %s' % (show(base, can.names)[:160] if base else None), ctx.where(cb, cc.span))
     ctx.floor('callers of add_speeds', n, 2)
+    # a link that the path rejects posts nothing: where a caller tests that the link continues the path (its idx_prev / idx_prev_alt
+    # against the last link of the path), the test comes before the link's restrictions are added — otherwise a rejected extension
+    # leaves the restrictions of a link that is not on the route in force for whatever is added next
+    eb = ctx.prog.by_id.get('PathTpc::extend')
+    if eb is None:
+        ctx.unproved(R, 'PathTpc::extend|rejected link posts nothing', 'anchor not found'); return
+    ean = engine(ctx).analysis(eb)
+    ecfg = inv.cfg(eb)
+    calls = [c for c in ean.calls if c.targets and b.fid in c.targets]
+    cont = [g for g in ean.guards if g.origin is None and g.block is not None and 'idx_prev' in repr(g.cond) and 'link_points' in repr(g.cond)]
+    def later_in_iteration(frm):
+        # blocks reachable from `frm` without taking a back edge (the rest of the same iteration)
+        be = set(ecfg.back_edges())
+        seen, work = set(), [frm]
+        while work:
+            x = work.pop()
+            for y in ecfg.succ.get(x, []):
+                if (x, y) in be or y in seen:
+                    continue
+                seen.add(y); work.append(y)
+        return seen
+    okc = len(calls) == 1 and bool(cont) and not any(g.block in later_in_iteration(calls[0].block) for g in cont) \
+        and all(calls[0].block in later_in_iteration(g.block) for g in cont)
+    ctx.check(okc, R, 'PathTpc::extend|rejected link posts nothing', 'the continuity test of a link (%d guard(s)) comes before its restrictions are added' % len(cont),
+              'within one iteration the continuity test of the link does not come before add_speeds (continuity guards found: %d)' % len(cont), ctx.where(eb, calls[0].span) if calls else ctx.where(eb))
 
 
 def select_set(ctx):
